@@ -10,6 +10,7 @@ package main
 import (
 	"fmt"
 	"os"
+	"runtime"
 	"math/rand"
 	"sort"
 	"strings"
@@ -270,22 +271,37 @@ func (w *hworld) process(env *network.Envelope) (outcome string) {
 	// left held by a handler that returned (or panicked) earlier
 	leaked := !w.ov.VerifLocksFree()["pendingTreeLock"]
 	done := make(chan string, 1)
+	gid := make(chan string, 1)
 	go func() {
 		defer func() {
 			if e := recover(); e != nil {
 				done <- "Crashed"
 			}
 		}()
+		b := make([]byte, 64)
+		b = b[:runtime.Stack(b, false)]
+		gid <- strings.Fields(string(b))[1]
 		w.ov.Process(env)
 		done <- "Fine"
 	}()
+	me := <-gid
 	if leaked {
-		// the handler either does not need the lock and returns at once, or waits for ever
-		select {
-		case r := <-done:
-			return r
-		case <-time.After(400 * time.Millisecond):
-			return "Blocked"
+		// the handler either does not need the lock and returns, or waits for it for ever:
+		// decided by looking at the goroutine, not at the clock
+		deadline := time.Now().Add(20 * time.Second)
+		for {
+			select {
+			case r := <-done:
+				return r
+			case <-time.After(5 * time.Millisecond):
+			}
+			if waitsForPendingTreeLock(me) {
+				return "Blocked"
+			}
+			if time.Now().After(deadline) {
+				w.failed = "handler neither returned nor is waiting for pendingTreeLock"
+				return "Blocked"
+			}
 		}
 	}
 	select {
@@ -295,6 +311,23 @@ func (w *hworld) process(env *network.Envelope) (outcome string) {
 		w.failed = "handler did not return although pendingTreeLock was free"
 		return "Blocked"
 	}
+}
+
+// waitsForPendingTreeLock reports whether goroutine gid is parked in Mutex.Lock called
+// from addPendingTreeMarshal or checkPendingTreeMarshal.
+func waitsForPendingTreeLock(gid string) bool {
+	buf := make([]byte, 1<<20)
+	n := runtime.Stack(buf, true)
+	for _, g := range strings.Split(string(buf[:n]), "\n\n") {
+		if !strings.HasPrefix(g, "goroutine "+gid+" ") {
+			continue
+		}
+		if (strings.Contains(g, ").addPendingTreeMarshal") || strings.Contains(g, ").checkPendingTreeMarshal")) &&
+			strings.Contains(g, "sync.(*Mutex).Lock") && (strings.Contains(g, "SemacquireMutex") || strings.Contains(g, "[sync.Mutex.Lock")) {
+			return true
+		}
+	}
+	return false
 }
 
 func (w *hworld) exec(o hop) (outcome string, nilFirst bool) {
@@ -379,11 +412,23 @@ func (w *hworld) exec(o hop) (outcome string, nilFirst bool) {
 	return
 }
 
-// tagsFor names the circumstances (read from the server BEFORE the operation) under
-// which the known defects show; they become part of the case class so that a
-// finding's signature identifies that history and no other.
-func (w *hworld) tagsFor(o hop) []string {
-	var tags []string
+// A tag names the circumstances (read from the server before the operation) under which
+// a known defect shows, and is kept only when the operation then really changed the
+// stored tree of that id (or panicked, for the root-less description). Tags become part
+// of the case class, so that a finding's signature identifies that history and no other.
+type tagCand struct {
+	tag    string
+	id     onet.TreeID
+	before *onet.Tree
+	state  int
+	crash  bool // kept when the handler panicked
+}
+
+func (w *hworld) tagsFor(o hop) []tagCand {
+	var tags []tagCand
+	cand := func(tag string, id onet.TreeID, crash bool) {
+		tags = append(tags, tagCand{tag, id, w.ov.VerifC06Tree(id), w.ov.VerifTreeState(id), crash})
+	}
 	switch o.Op {
 	case "presp", "ptm":
 		if o.Desc < 0 {
@@ -392,25 +437,39 @@ func (w *hworld) tagsFor(o hop) []string {
 		tm := w.descs[o.Desc]
 		st := w.ov.VerifTreeState(tm.TreeID)
 		if st == 2 && !tm.TreeID.IsNil() {
-			tags = append(tags, "desc-for-present")
+			cand("desc-for-present", tm.TreeID, false)
 		}
 		if len(tm.Children) == 0 && st != 0 {
-			tags = append(tags, "empty-desc")
+			cand("empty-desc", tm.TreeID, true)
 		}
 	case "pros":
 		for _, tm := range w.ov.VerifC06PendingTreeMarshals()[w.rosters[o.Ros].ID] {
 			switch w.ov.VerifTreeState(tm.TreeID) {
 			case 0:
-				tags = append(tags, "roster-for-absent")
+				cand("roster-for-absent", tm.TreeID, false)
 			case 2:
-				tags = append(tags, "roster-for-present")
+				cand("roster-for-present", tm.TreeID, false)
 			}
 			if len(tm.Children) == 0 {
-				tags = append(tags, "empty-desc")
+				cand("empty-desc", tm.TreeID, true)
 			}
 		}
 	}
 	return tags
+}
+
+func (w *hworld) keepTags(cands []tagCand, oc string, tags map[string]bool) {
+	for _, c := range cands {
+		if c.crash {
+			if oc == "Crashed" {
+				tags[c.tag] = true
+			}
+			continue
+		}
+		if w.ov.VerifTreeState(c.id) != c.state || w.ov.VerifC06Tree(c.id) != c.before {
+			tags[c.tag] = true
+		}
+	}
 }
 
 func cloneTM(m *onet.TreeMarshal) *onet.TreeMarshal {
@@ -535,9 +594,7 @@ func runHist(in input) lib.Case {
 	peer := false
 	tags := map[string]bool{}
 	for _, o := range in.Ops {
-		for _, t := range w.tagsFor(o) {
-			tags[t] = true
-		}
+		cands := w.tagsFor(o)
 		oc, nilFirst := w.exec(o)
 		if w.failed != "" {
 			break
@@ -546,6 +603,7 @@ func runHist(in input) lib.Case {
 		if w.failed != "" {
 			break
 		}
+		w.keepTags(cands, oc, tags)
 		ops = append(ops, w.opLit(o, nilFirst))
 		snaps = append(snaps, w.snapshot(oc))
 		trace = append(trace, o.Op+":"+oc)
